@@ -228,8 +228,9 @@ def run(repo: Repo, chk: Check):
 
     from .shared import rule_function_labels
     chk.guarded(rule_function_labels, repo, chk, "R13.g")
-    from .c04 import rule_functions_below_modules
+    from .c04 import rule_functions_below_modules, rule_module_chain
     chk.guarded(rule_functions_below_modules, repo, chk, "R13.f")
+    chk.guarded(rule_module_chain, repo, chk, "R13.f")
 
     # ------------------------------------------------------------ R13.e
     sm = cp.func("CompilerPassSetModuleNames.handle_import_from")
